@@ -78,6 +78,10 @@ func mapOrderReference(cs mapOrderCase, c10prefix []*types.WorkObject) (*mapOrde
 				return nil, "n/a", nil
 			}
 			blk, err := s.n.Build(s.opts(core.VBuildOpts{Order: 2, Fill: true}))
+			var refused core.VForeignRefused
+			if errors.As(err, &refused) {
+				return nil, "n/a", nil
+			}
 			if err != nil {
 				return nil, "", fmt.Errorf("build: %w", err)
 			}
